@@ -1,12 +1,14 @@
 SPECIFICATION Spec
 CONSTANTS
-  BaseIds = {1, 2, 3, 4, 5, 6, 7, 8, 9, 10, 11, 12, 13, 14, 15, 16, 17, 18, 19}
+  BaseIds = {1, 2, 3, 4, 5, 6, 7, 8, 9, 10, 11, 12, 13, 14, 15, 16, 17, 18, 19, 20, 21, 22}
   Toks = {"-q", "--quiet", "-v", "-vv", "-vvv", "--ansi", "--no-ansi", "-n", "--no-interaction", "-h", "--help", "-V", "--version"}
   MaxSw = 2
   LitToks = {"-q", "--help", "-vvv"}
   MaxLit = 1
-  Behs = {"ok", "code"}
-  Streams = {"none", "both", "out"}
+  Behs = {"ok", "code", "meddle"}
+  Streams = {"none", "both", "out", "err"}
+  Rounds = 1
+  SecondIds = {1}
 INVARIANT H_inscope
 INVARIANT P_quiet
 INVARIANT P_verbosity
@@ -15,6 +17,7 @@ INVARIANT P_ansi
 INVARIANT P_nointeraction
 INVARIANT P_help
 INVARIANT P_version
+INVARIANT P_command
 INVARIANT P_afterdd
 INVARIANT A_runall
 INVARIANT Emit
